@@ -836,6 +836,14 @@ func (f *frame) ordinalOf(com *ssa.CallCommon, pos token.Pos) int {
 
 func (f *frame) calleeName(com *ssa.CallCommon) (abs string, callee *ssa.Function) {
 	if com.IsInvoke() {
+		// a method promoted from an embedded interface (hash.Hash embeds io.Writer) may be specified for the
+		// interface it is called through: "(hash.Hash).Write" takes precedence over "(io.Writer).Write"
+		if n, ok := com.Value.Type().(*types.Named); ok && n.Obj().Pkg() != nil {
+			alt := "(" + n.Obj().Pkg().Path() + "." + n.Obj().Name() + ")." + com.Method.Name()
+			if alt != com.Method.FullName() && f.vc.w.contracts[alt] != nil {
+				return alt, nil
+			}
+		}
 		return com.Method.FullName(), nil
 	}
 	if fn := com.StaticCallee(); fn != nil {
@@ -979,7 +987,10 @@ func (f *frame) applyCall(abs string, callee *ssa.Function, args, binds []*sym, 
 	rel := f.relCallee(abs)
 	vc.callsSeen[rel]++
 	c := vc.w.contractOf(abs)
-	f.interfere(st, reach)
+	if !(c == nil && f.smallHelper(callee) && vc.depth < 3) {
+		// a helper executed in place is not a call boundary: the environment acts where the calls inside it are
+		f.interfere(st, reach)
+	}
 	f.siteAsserts("call", rel, "before", args, nil, st, reach, pos)
 	var res *sym
 	switch {
@@ -1121,17 +1132,24 @@ func (f *frame) applyContract(c *Contract, rel string, callee *ssa.Function, arg
 			vc.assume(reach, not(eq("(itag "+results[0].t+")", "0")))
 		}
 	}
-	if c.FreshRes && len(results) > 0 && vc.w.so.sortOf(results[0].typ) == "Ref" {
-		// fresh: not allocated before the call, allocated after it.  A callee whose frame includes heap(alloc) has had
-		// the allocation set havocked (monotonically): the result is allocated there; otherwise the result is
-		// added to the unchanged set.
-		aPre := vc.hget(pre, vc.allocKey())
-		vc.assume(reach, fmt.Sprintf("(and (not (= %s nil)) (not (select %s %s)))", results[0].t, aPre, results[0].t))
-		a := vc.hget(st, vc.allocKey())
-		if a != aPre {
-			vc.assume(reach, fmt.Sprintf("(select %s %s)", a, results[0].t))
-		} else {
-			vc.hset(st, vc.allocKey(), fmt.Sprintf("(store %s %s true)", a, results[0].t))
+	if so := ""; c.FreshRes && len(results) > 0 {
+		so = vc.w.so.sortOf(results[0].typ)
+		if so == "Ref" || so == "Iface" {
+			// fresh: not allocated before the call, allocated after it (for an interface result: the object it
+			// holds).  A callee whose frame includes heap(alloc) has had the allocation set havocked
+			// (monotonically): the result is allocated there; otherwise the result is added to the unchanged set.
+			obj := results[0].t
+			if so == "Iface" {
+				obj = "(iref " + results[0].t + ")"
+			}
+			aPre := vc.hget(pre, vc.allocKey())
+			vc.assume(reach, fmt.Sprintf("(and (not (= %s nil)) (not (select %s %s)))", obj, aPre, obj))
+			a := vc.hget(st, vc.allocKey())
+			if a != aPre {
+				vc.assume(reach, fmt.Sprintf("(select %s %s)", a, obj))
+			} else {
+				vc.hset(st, vc.allocKey(), fmt.Sprintf("(store %s %s true)", a, obj))
+			}
 		}
 	}
 	if len(c.Results) > 0 && len(c.Results) != len(results) {
@@ -1662,7 +1680,7 @@ func (f *frame) nativeSprintf(args []*sym, st *state, reach string) *sym {
 		switch format[i+1] {
 		case '%':
 			cur += "%"
-		case 's', 'd', 'v':
+		case 's', 'd', 'v', 'x':
 			lits = append(lits, cur)
 			cur = ""
 			verbs = append(verbs, format[i+1])
@@ -1694,6 +1712,16 @@ func (f *frame) nativeSprintf(args []*sym, st *state, reach string) *sym {
 		asInt := fmt.Sprintf("(ite (>= (iint %s) 0) (str.from_int (iint %s)) (str.++ \"-\" (str.from_int (- (iint %s)))))", el, el, el)
 		var t string
 		switch v {
+		case 'x':
+			// %x of a byte slice: the hexadecimal form of its text (hex_of / str_of as in the assumed contracts of
+			// encoding/hex and of the byte-slice conversions); anything else under %x stays unconstrained
+			bytesID := vc.w.so.typeID(types.NewSlice(types.Universe.Lookup("byte").Type()))
+			t = other
+			if so, ok := vc.ufuncApp("str_of", fmt.Sprintf("(isl %s)", el)); ok {
+				if hx, ok := vc.ufuncApp("hex_of", so); ok {
+					t = ite(fmt.Sprintf("(= (itag %s) %d)", el, bytesID), hx, other)
+				}
+			}
 		case 's':
 			t = ite(fmt.Sprintf("(= (itag %s) %d)", el, strID), asStr, other)
 		case 'd':
